@@ -58,11 +58,54 @@ M("c01-pyeval-part-stride-dropped", ["C01", "C05"], PYEVAL,
 M("c01-pyeval-concat-unmasked", ["C01", "C05"], PYEVAL,
   '            part &= (1 << width) - 1\n', '', "R-01d")
 M("c01-pyeval-matches-dash-as-one", ["C01", "C05"], PYEVAL,
-  'mask  = int("".join("0" if b == "-" else "1" for b in pattern), 2)',
-  'mask  = int("".join("1" if b == "-" else "1" for b in pattern), 2)', "R-01g")
+  'mask  = int("0" + "".join("0" if b == "-" else "1" for b in pattern), 2)',
+  'mask  = int("0" + "".join("1" if b == "-" else "1" for b in pattern), 2)', "R-01g")
+M("c01-pyeval-matches-empty-pattern-regressed", ["C01", "C05"], PYEVAL,
+  'mask  = int("0" + "".join("0" if b == "-" else "1" for b in pattern), 2)',
+  'mask  = int("".join("0" if b == "-" else "1" for b in pattern), 2)', "R-01g")
 M("c01-ast-matches-mask", ["C01"], AST,
   'mask    = int("0" + pattern.replace("0", "1").replace("-", "0"), 2)',
   'mask    = int("0" + pattern.replace("-", "0"), 2)', "R-01g")
+# R-01e / R-01f / R-01i: result shapes, operator overloads, derived operators
+M("c01-shape-mul-max", ["C01"], AST,
+  'return Shape(a_shape.width + b_shape.width, a_shape.signed or b_shape.signed)',
+  'return Shape(max(a_shape.width, b_shape.width), a_shape.signed or b_shape.signed)', "R-01e")
+M("c01-shape-floordiv-no-sign-bit", ["C01"], AST,
+  'return Shape(a_shape.width + b_shape.signed, a_shape.signed or b_shape.signed)',
+  'return Shape(a_shape.width, a_shape.signed or b_shape.signed)', "R-01e")
+M("c01-shape-unify-no-zero-bit", ["C01"], AST,
+  'return signed(max(signed_width, unsigned_width + 1))', 'return signed(max(signed_width, unsigned_width))', "R-01e")
+M("c01-shape-neg-width", ["C01"], AST,
+  'return Shape(a_shape.width + 1, True)', 'return Shape(a_shape.width, True)', "R-01e")
+M("c01-shape-shl-off-by-one", ["C01"], AST,
+  'return Shape(a_shape.width + 2 ** b_shape.width - 1, a_shape.signed)',
+  'return Shape(a_shape.width + 2 ** b_shape.width, a_shape.signed)', "R-01e")
+M("c01-shape-sub-unsigned", ["C01"], AST,
+  """                o_shape = Shape._unify(op_shapes)
+                return Shape(o_shape.width + 1, True)""",
+  """                o_shape = Shape._unify(op_shapes)
+                return Shape(o_shape.width + 1, o_shape.signed)""", "R-01e")
+M("c01-shape-mod-lhs", ["C01"], AST,
+  'return Shape(b_shape.width, b_shape.signed)', 'return Shape(a_shape.width, a_shape.signed)', "R-01e")
+M("c01-dunder-rsub-swapped", ["C01"], AST,
+  'return Operator("-", [other, self])', 'return Operator("-", [self, other])', "R-01f")
+M("c01-dunder-radd-wrong-op", ["C01"], AST,
+  'return Operator("+", [other, self])', 'return Operator("-", [other, self])', "R-01f")
+M("c01-bit-select-fold-stride", ["C01"], AST,
+  'return self[offset.value:offset.value + width]', 'return self[offset.value * width:offset.value * width + width]', "R-01i")
+M("c01-word-select-fold-off-by-one", ["C01"], AST,
+  'return self[offset.value * width:(offset.value + 1) * width]', 'return self[offset.value * width:(offset.value + 1) * width + 1]', "R-01i")
+M("c01-shift-left-sign-lost", ["C01"], AST,
+  'return Cat(Const(0, amount), self).as_signed()', 'return Cat(Const(0, amount), self)', "R-01i")
+M("c01-rotate-right-mirrored", ["C01"], AST,
+  'return Cat(self[amount:], self[:amount])', 'return Cat(self[:amount], self[amount:])', "R-01i")
+M("c01-shift-right-clamp-dropped", ["C01"], AST,
+  '                amount = len(self) - 1', '                amount = len(self)', "R-01i")
+M("c01-benign-word-select-fold-refactor", ["C01"], AST,
+  'return self[offset.value * width:(offset.value + 1) * width]', 'return self[width * offset.value:width * offset.value + width]', "silent")
+M("c01-benign-shape-mul-commuted", ["C01"], AST,
+  'return Shape(a_shape.width + b_shape.width, a_shape.signed or b_shape.signed)',
+  'return Shape(b_shape.width + a_shape.width, b_shape.signed or a_shape.signed)', "silent")
 M("c01-benign-rename-local", ["C01"], PYRTL,
   '        def mask(value):\n            value_mask = (1 << len(value)) - 1\n            return f"({value_mask:#x} & {self(value)})"',
   '        def mask(value):\n            vmask = (1 << len(value)) - 1\n            return f"({vmask:#x} & {self(value)})"', "silent")
